@@ -119,11 +119,27 @@ fn clone_case(rep: &Report, idx: usize, sc: &Scenario, verify_header: bool) -> O
                 _ => {}
             }
         }
+        // One clone in five names its OUTPUT through a symlinked directory followed by "..":
+        // the operating system resolves the link first, so the given output is
+        // outdir/out.bin; rewriting the path as text would name another file.
+        let mut dotdot_out: Option<PathBuf> = None;
+        if idx % 5 == 2 {
+            let sub = odir.join("sub");
+            let link = dir.join("lnk");
+            let _ = std::fs::remove_file(&link);
+            if std::fs::create_dir_all(&sub).is_ok() && std::os::unix::fs::symlink(&sub, &link).is_ok() {
+                dotdot_out = Some(link.join("..").join("out.bin"));
+            }
+        }
         let before_in = listing(&dir);
         let before_out = listing(&odir);
         let before_inputs: Vec<(PathBuf, Vec<u8>)> = b.seed_paths.iter().chain([&b.arch.path]).map(|pth| (pth.clone(), std::fs::read(pth).unwrap_or_default())).collect();
         let server = if sc.http { Some(Server::start(Arc::new(b.arch.bytes.clone()), httpd::well_behaved())) } else { None };
         let mut spec = cc::clone_spec(&b, sc, server.as_ref().map(|s| s.url()).unwrap_or_else(|| p(&b.arch.path)));
+        if let Some(o) = &dotdot_out {
+            spec.output = o.clone();
+            rep.count("clone.output_named_through_symlink_and_dotdot", 1);
+        }
         if verify_header {
             spec.verify_header = Some(crate::util::hex(&b.arch.model.parsed.header_checksum));
         }
